@@ -27,7 +27,9 @@ EXPLANATION = (
     'R-C15.6 BaseEvolutionTask.execute_tasks reaches the loop over its tasks on every normal path (an empty list excepted) and every iteration calls task.execute(); PurgeAppTask.execute runs its SQL under no condition other than evolution_required; '
     'R-C15.4 also: purging removes the app\'s own, emptied signature entry (guarded by is_empty); R-C15.7 a stored custom many-to-many db_table survives loading (shared with R-C06.10).'
     ' '
-    'R-C15.8 keyed probes of ProjectSignature._app_sigs occur only inside get_app_sig (the lookup that honours legacy labels).')
+    'R-C15.8 keyed probes of ProjectSignature._app_sigs occur only inside get_app_sig (the lookup that honours legacy labels).'
+    ' '
+    'R-C15.9 (= R-C17.7) a generator of statement batches is iterated once in run_sql.')
 NOT_DECIDED = (
     'Non-interference with other apps\' tables and rows for every project '
     'layout (prefix table names, shared m2m tables).')
@@ -531,7 +533,13 @@ def r8_app_lookup_through_accessor(ctx, rule_id='R-C15.8'):
                'the app table is never probed by key outside iteration')
 
 
+def r9_statement_generator_iterated_once(ctx):
+    from .c17 import r7_statement_generator_iterated_once
+    r7_statement_generator_iterated_once(ctx, rule_id='R-C15.9')
+
+
 def run(ctx):
+    r9_statement_generator_iterated_once(ctx)
     r8_app_lookup_through_accessor(ctx)
     r7_stored_m2m_table_name_survives(ctx)
     r6_every_task_executed(ctx)
